@@ -2,6 +2,7 @@ package ir
 
 import (
 	"fmt"
+	"go/constant"
 	"go/token"
 	"go/types"
 	"strings"
@@ -448,4 +449,152 @@ func Instrs0(ia *ssa.IndexAddr) ssa.Instruction {
 		}
 	}
 	return nil
+}
+
+// ---------------------------------------------------------------------------------
+// symbolic strings
+
+// SymPart is a piece of a string value: a literal or an opaque value.
+type SymPart struct {
+	Lit string
+	Val ssa.Value // nil for literals
+}
+
+// VariadicElems returns the values stored into the backing array of a variadic /
+// literal slice argument, by index (nil when the shape is not recognised).
+func VariadicElems(v ssa.Value) []ssa.Value {
+	if c, ok := v.(*ssa.Const); ok && c.Value == nil {
+		return []ssa.Value{}
+	}
+	sl, ok := v.(*ssa.Slice)
+	if !ok {
+		return nil
+	}
+	al, ok := sl.X.(*ssa.Alloc)
+	if !ok || al.Referrers() == nil {
+		return nil
+	}
+	m := map[int64]ssa.Value{}
+	max := int64(-1)
+	for _, r := range *al.Referrers() {
+		ia, ok := r.(*ssa.IndexAddr)
+		if !ok || ia.Referrers() == nil {
+			continue
+		}
+		k, ok := ia.Index.(*ssa.Const)
+		if !ok || k.Value == nil {
+			return nil
+		}
+		for _, rr := range *ia.Referrers() {
+			if st, ok := rr.(*ssa.Store); ok && st.Addr == ia {
+				m[k.Int64()] = st.Val
+				if k.Int64() > max {
+					max = k.Int64()
+				}
+			}
+		}
+	}
+	out := make([]ssa.Value, max+1)
+	for i := range out {
+		out[i] = m[int64(i)]
+		if out[i] == nil {
+			return nil
+		}
+	}
+	return out
+}
+
+// SymString evaluates a string-valued expression into literal and opaque parts:
+// constants, concatenation and fmt.Sprintf with a constant format are followed.
+// Adjacent literals are merged. ok=false when a Sprintf cannot be decoded.
+func SymString(v ssa.Value) (parts []SymPart, ok bool) {
+	ok = true
+	var walk func(v ssa.Value, depth int)
+	add := func(p SymPart) {
+		if p.Val == nil && len(parts) > 0 && parts[len(parts)-1].Val == nil {
+			parts[len(parts)-1].Lit += p.Lit
+			return
+		}
+		parts = append(parts, p)
+	}
+	walk = func(v ssa.Value, depth int) {
+		if depth > 8 {
+			add(SymPart{Val: v})
+			return
+		}
+		for {
+			switch x := v.(type) {
+			case *ssa.MakeInterface:
+				v = x.X
+				continue
+			case *ssa.ChangeType:
+				v = x.X
+				continue
+			}
+			break
+		}
+		c := Canon(v)
+		switch x := c.(type) {
+		case *ssa.Const:
+			if x.Value != nil && x.Value.Kind() == constant.String {
+				add(SymPart{Lit: constant.StringVal(x.Value)})
+				return
+			}
+		case *ssa.BinOp:
+			if x.Op == token.ADD {
+				if b, isB := x.Type().Underlying().(*types.Basic); isB && b.Info()&types.IsString != 0 {
+					walk(x.X, depth+1)
+					walk(x.Y, depth+1)
+					return
+				}
+			}
+		case *ssa.Call:
+			f := x.Call.StaticCallee()
+			if f != nil && f.Pkg != nil && f.Pkg.Pkg.Path() == "fmt" && f.Name() == "Sprintf" && len(x.Call.Args) == 2 {
+				k, isK := x.Call.Args[0].(*ssa.Const)
+				elems := VariadicElems(x.Call.Args[1])
+				if !isK || k.Value == nil || elems == nil {
+					ok = false
+					add(SymPart{Val: c})
+					return
+				}
+				format := constant.StringVal(k.Value)
+				ai := 0
+				for i := 0; i < len(format); i++ {
+					if format[i] != '%' {
+						add(SymPart{Lit: string(format[i])})
+						continue
+					}
+					if i+1 < len(format) && format[i+1] == '%' {
+						add(SymPart{Lit: "%"})
+						i++
+						continue
+					}
+					j := i + 1
+					for j < len(format) && strings.ContainsRune("+-# 0123456789.", rune(format[j])) {
+						j++
+					}
+					if j >= len(format) || ai >= len(elems) {
+						ok = false
+						return
+					}
+					if format[j] == 's' || format[j] == 'v' {
+						if j == i+1 {
+							walk(elems[ai], depth+1)
+						} else {
+							add(SymPart{Val: elems[ai]})
+						}
+					} else {
+						add(SymPart{Val: elems[ai]})
+					}
+					ai++
+					i = j
+				}
+				return
+			}
+		}
+		add(SymPart{Val: c})
+	}
+	walk(v, 0)
+	return parts, ok
 }
